@@ -53,6 +53,20 @@ CLAIMED = {
                 text="Millions of grammar sentences, boundary values, single-edit mutants and random strings are parsed by the library and by "
                      "O-POSIX; acceptance must agree both ways and every meaningful field must match and be independent of how the result "
                      "struct was pre-filled.", note="NUL-containing strings are outside the domain", ref="3/C16"),
+    "C07": dict(cat="exploration", tech="round-trip relation monitor (format then parse), ASan+UBSan build",
+                text="Millions of (zone, instant, femtoseconds, lossless format, parse zone) cases from a generated family of lossless "
+                     "formats; the oracle is equality, so no model can be wrong.", note="lossless family as documented in DESIGN.md 3/C07", ref="3/C07"),
+    "C08": dict(cat="exploration", tech="reference renderer (O-FMT: documented rules + oracle's own strftime per token) and sanitizers on malformed formats; libFuzzer in the thorough tier",
+                text="Output of format() for token sequences is compared with the concatenation of per-token expectations computed from "
+                     "lookup() fields; arbitrary and malformed format strings run under ASan/UBSan.", note="C locale; glibc strftime is the reference for delegated specifiers", ref="3/C08"),
+    "C09": dict(cat="exploration", tech="reference-parser differential (O-FMT) both ways on generated near-canonical inputs + sanitizers on arbitrary pairs; libFuzzer with the differential in the target (thorough)",
+                text="Acceptance and the returned instant are compared with a reference parser written from the documentation, on inputs "
+                     "built from chosen fields, boundary values and single-character edits; zone-read times resolved through O-ZONE.",
+                note="formats using strptime-delegated specifiers are outside the model (sanitizer coverage only)", ref="3/C09"),
+    "C18": dict(cat="exploration", tech="exact rational floor oracle (128-bit) over a panel of 13 duration types under UBSan",
+                text="lookup/convert/format/parse templates are instantiated for each duration type and compared with exact floor "
+                     "arithmetic at every remainder class near the epoch and at each representation's limits.",
+                note="values whose whole-second count does not fit time_point<seconds> are documented UB and not passed", ref="3/C18"),
 }
 
 PENDING = {}
